@@ -47,27 +47,28 @@ type Step struct {
 
 // RegView is the projection of a register.
 type RegView struct {
-	Ok   bool     `json:"ok"`
-	Raw  []uint64 `json:"raw"`
-	S    uint64   `json:"s"`
-	Lvl  int      `json:"lvl"`
-	Deg  int      `json:"deg"`
-	Cons bool     `json:"cons"` // all real slots of one model class agree
-	NBits int     `json:"nbits"` // measured log2 of the noise (T*e), calibration of the model's bound
+	Ok    bool     `json:"ok"`
+	Raw   []uint64 `json:"raw"`
+	S     uint64   `json:"s"`
+	Lvl   int      `json:"lvl"`
+	Deg   int      `json:"deg"`
+	Cons  bool     `json:"cons"`  // all real slots of one model class agree
+	NBits int      `json:"nbits"` // measured log2 of the noise (T*e), calibration of the model's bound
 }
 
 // Event is a step together with what the real code did.
 type Event struct {
 	Step
-	Prog  int      `json:"prog"`
-	Idx   int      `json:"idx"`
-	Err   bool     `json:"err"`
-	Panic bool     `json:"panic"`
-	Msg   string   `json:"msg,omitempty"`
-	Res   *RegView `json:"res,omitempty"`
-	ResA  *RegView `json:"resa,omitempty"`
-	Frame bool     `json:"frame"` // every object other than the designated output is bit-for-bit unchanged
-	FrameMsg string `json:"framemsg,omitempty"`
+	Prog     int      `json:"prog"`
+	Fork     int      `json:"fork"`
+	Idx      int      `json:"idx"`
+	Err      bool     `json:"err"`
+	Panic    bool     `json:"panic"`
+	Msg      string   `json:"msg,omitempty"`
+	Res      *RegView `json:"res,omitempty"`
+	ResA     *RegView `json:"resa,omitempty"`
+	Frame    bool     `json:"frame"` // every object other than the designated output is bit-for-bit unchanged
+	FrameMsg string   `json:"framemsg,omitempty"`
 }
 
 // PSet is a concrete parameter set.
@@ -135,23 +136,25 @@ func (ps PSet) Consts() Consts {
 
 // Machine holds the concrete objects behind the abstract register file.
 type Machine struct {
-	PS     PSet
-	params bgv.Parameters
-	T      uint64
-	VW, W  int
-	NR     int
-	n      int // slots
-	kgen   *rlwe.KeyGenerator
-	sk     *rlwe.SecretKey
-	rlk    *rlwe.RelinearizationKey
-	ecd    *bgv.Encoder
-	enc    *rlwe.Encryptor
-	dec    *rlwe.Decryptor
-	eval   *bgv.Evaluator
-	regs   []*rlwe.Ciphertext
-	ok     []bool
-	Poison bool
-	Noise  bool
+	PS      PSet
+	params  bgv.Parameters
+	T       uint64
+	VW, W   int
+	NR      int
+	n       int // slots
+	kgen    *rlwe.KeyGenerator
+	sk      *rlwe.SecretKey
+	rlk     *rlwe.RelinearizationKey
+	ecd     *bgv.Encoder
+	enc     *rlwe.Encryptor
+	dec     *rlwe.Decryptor
+	eval    *bgv.Evaluator
+	regs    []*rlwe.Ciphertext
+	ok      []bool
+	Poison  bool
+	Noise   bool
+	saved   []*rlwe.Ciphertext
+	savedOk []bool
 }
 
 func NewMachine(ps PSet, vw, nr int) *Machine {
@@ -434,6 +437,27 @@ func (m *Machine) Exec(st Step) (ev Event) {
 
 	if st.Op == "Reset" {
 		m.reset(st.Mode, st.Rlk)
+		return
+	}
+
+	if st.Op == "Save" || st.Op == "Restore" {
+		// checkpoint of the register file: many single steps are tried from one reached state
+		src, srcOk := m.regs, m.ok
+		if st.Op == "Restore" {
+			src, srcOk = m.saved, m.savedOk
+		}
+		dst := make([]*rlwe.Ciphertext, len(src))
+		for i := range src {
+			if src[i] != nil {
+				dst[i] = src[i].CopyNew()
+			}
+		}
+		dstOk := append([]bool{}, srcOk...)
+		if st.Op == "Save" {
+			m.saved, m.savedOk = dst, dstOk
+		} else {
+			m.regs, m.ok = dst, dstOk
+		}
 		return
 	}
 
